@@ -366,6 +366,9 @@ class TokenFlow:
                     r = eq[0] == right[1]
                     return r if isinstance(op, ast.Eq) else not r
                 if isinstance(op, (ast.In, ast.NotIn)):
+                    for f in path.head_facts:
+                        if f[0] == 'in' and f[1] == right:
+                            return f[2] == isinstance(op, ast.In)
                     vals = self.table_values(right)
                     if vals is not None:
                         cands = self.head_candidates(path)
@@ -515,9 +518,18 @@ class TokenFlow:
         name = call.func.id
         v = path.env.get(name)
         if v is None:
-            if name in OPAQUE or name not in self.facts.funcs:
+            if name in OPAQUE:
                 return None
-            v = ('func', name)
+            if name in self.facts.funcs:
+                v = ('func', name)
+            elif name in self.facts.assign_nodes and name not in self.facts.tables and name not in self.facts.sets \
+                    and name not in self.consts and isinstance(self.facts.assign_nodes[name].value, (ast.Call, ast.Name)):
+                # PARSE_X = factory(...) / PARSE_X = other_function at module level
+                v = self.module_value(name)
+                if v is None:
+                    return None
+            else:
+                return None
         if v[0] == 'func':
             if v[1] in OPAQUE or v[1] not in self.facts.funcs:
                 return None
